@@ -17,6 +17,7 @@ import (
 // text so that a replay file reproduces them exactly).
 type Val struct {
 	// K: bool | int | float | str | dur | text | opaque | strs | smap | omap |
+	// upath (URL path of an OTLP/HTTP signal: the loader adds a leading "/" when missing, nothing else) |
 	// null (section present with a null body) | raw (mistake payloads only)
 	K string            `json:"k"`
 	S string            `json:"s,omitempty"`
@@ -35,7 +36,7 @@ func (v Val) yaml() any {
 		return v.S == "true"
 	case "int", "float":
 		return json.Number(v.S)
-	case "str", "dur", "text", "opaque":
+	case "str", "dur", "text", "opaque", "upath":
 		return v.S
 	case "strs":
 		l := make([]any, 0, len(v.L))
@@ -139,6 +140,17 @@ func checkTyped(tv reflect.Value, w Val) string {
 		if tv.Kind() != reflect.String || tv.String() != w.S {
 			return fmt.Sprintf("typed value is %q", fmt.Sprint(rawString(tv)))
 		}
+	case "upath":
+		if tv.Kind() != reflect.String {
+			return fmt.Sprintf("typed value has kind %s", tv.Kind())
+		}
+		want := urlPathExpect(w.S)
+		for _, x := range want {
+			if tv.String() == x {
+				return ""
+			}
+		}
+		return fmt.Sprintf("typed value is %q, expected %q (the written path, with a leading \"/\" added when missing; nothing else is documented to change)", tv.String(), want)
 	case "dur":
 		d, _ := time.ParseDuration(w.S)
 		if tv.Type() != durationType || time.Duration(tv.Int()) != d {
@@ -248,13 +260,27 @@ func strOf(e any) (string, bool) {
 	return "", false
 }
 
+// droppedZero is the prefix of checkEff's verdict for a written zero value that
+// vanished from the effective configuration although the factory default differs.
+const droppedZero = "effective configuration has no such key, and the factory default there is "
+
 // checkEff compares the value found in the effective configuration
 // (confmap.New().Marshal(cfg), read through ToStringMap) with the written
-// one.  tv is the typed value (already checked).
-func checkEff(e any, present bool, tv reflect.Value, w Val) string {
+// one.  tv is the typed value (already checked); dv is the factory default at
+// the same position (invalid: none, i.e. the zero value).
+//
+// A key that is ABSENT from the effective configuration stands for "the
+// default applies" (that is what a reader of the effective configuration, or
+// anything that loads it again, concludes).  Absence is therefore faithful
+// only when the typed value is empty (omitempty) AND the factory default is
+// empty as well; a written zero over a non-zero default must stay visible.
+func checkEff(e any, present bool, tv, dv reflect.Value, w Val) string {
 	if !present || e == nil {
 		if emptyTyped(tv) {
-			return "" // omitempty
+			if !present && dv.IsValid() && !emptyTyped(dv) {
+				return droppedZero + show(dv) + ": the written value (the zero value) is not reflected, a reader concludes the default applies"
+			}
+			return "" // omitempty, and absence means the same thing
 		}
 		if !present {
 			return "effective configuration has no such key"
@@ -281,6 +307,11 @@ func checkEff(e any, present bool, tv reflect.Value, w Val) string {
 	case "str":
 		if s, ok := strOf(e); !ok || s != w.S {
 			return fmt.Sprintf("effective value is %#v", e)
+		}
+	case "upath":
+		// the effective configuration shows the typed value (checked against the written one already)
+		if s, ok := strOf(e); !ok || s != tv.String() {
+			return fmt.Sprintf("effective value is %#v, typed value is %q", e, tv.String())
 		}
 	case "opaque":
 		if s, ok := strOf(e); !ok || s != redacted {
@@ -471,9 +502,9 @@ func hasSuffix(p []string, suf ...string) bool {
 	return true
 }
 
-// leafGen returns the generator of valid values for a leaf, or nil when the
+// leafGenBase returns the generator of valid values for a leaf, or nil when the
 // generator does not know the leaf's type (the leaf is then never written).
-func leafGen(k *compKind, n *schemaNode) func(t *rapid.T) Val {
+func leafGenBase(k *compKind, n *schemaNode) func(t *rapid.T) Val {
 	ty := n.Type
 	key := last(n.Path)
 	tname := ty.String()
@@ -588,19 +619,15 @@ func leafGen(k *compKind, n *schemaNode) func(t *rapid.T) Val {
 				return vStr(p + genHostPort(t))
 			}
 		case key == "endpoint" && k.name() == "exporters/otlphttp",
-			key == "traces_endpoint", key == "metrics_endpoint", key == "logs_endpoint", key == "proxy_url":
+			key == "traces_endpoint", key == "metrics_endpoint", key == "logs_endpoint":
+			// never normalised while loading: whatever is written comes back verbatim
+			return func(t *rapid.T) Val { return vStr(genShapedURL(t)) }
+		case key == "proxy_url":
 			return func(t *rapid.T) Val { return vStr(genURL(t)) }
 		case key == "endpoint", key == "address":
 			return func(t *rapid.T) Val { return vStr(genHostPort(t)) }
 		case strings.HasSuffix(key, "_url_path"):
-			return func(t *rapid.T) Val {
-				n := rapid.IntRange(1, 3).Draw(t, "segs")
-				s := ""
-				for i := 0; i < n; i++ {
-					s += "/" + genName(t, "seg")
-				}
-				return vStr(s)
-			}
+			return func(t *rapid.T) Val { return Val{K: "upath", S: genURLPath(t)} }
 		case key == "min_version":
 			return func(t *rapid.T) Val { return vStr(rapid.SampledFrom([]string{"1.0", "1.1", "1.2"}).Draw(t, key)) }
 		case key == "max_version":
